@@ -497,13 +497,45 @@ def _options_nf(repo: Repo, mod: ClassInfo, name: str) -> ast.FunctionDef:
     except Exception:
         return fn
     recv = {}
+    called = set()
     for lp in [n for n in ast.walk(fn) if isinstance(n, ast.For) and isinstance(n.target, ast.Name)]:
         if "self.options" in norm(lp.iter) and any(isinstance(c, ast.Call) and isinstance(c.func, ast.Attribute) and isinstance(c.func.value, ast.Name)
-                                                   and c.func.value.id == lp.target.id and c.func.attr.startswith("_") and c.func.attr in opt.methods
+                                                   and c.func.value.id == lp.target.id and c.func.attr in opt.methods and not c.func.attr.startswith("__")
                                                    for c in ast.walk(lp)):
             recv[lp.target.id] = opt
+            called |= {c.func.attr for c in ast.walk(lp) if isinstance(c, ast.Call) and isinstance(c.func, ast.Attribute) and isinstance(c.func.value, ast.Name)
+                       and c.func.value.id == lp.target.id and c.func.attr in opt.methods and not c.func.attr.startswith("__")}
     if recv:
-        fn = inline.normalize(repo, mod, repo.own_method(mod, name), receivers=recv, aliases=True)
+        # the codec of one option may live on the Option object (`option.to_field(v)`, public or private): read through
+        fn = inline.normalize(repo, mod, repo.own_method(mod, name), receivers=recv, aliases=True, also=tuple(sorted(called)))
+    # one-expression properties of the Option object (`option.mask`) read as their expression; 2 ** n as 1 << n
+    lvars = {lp.target.id for lp in ast.walk(fn) if isinstance(lp, ast.For) and isinstance(lp.target, ast.Name) and "self.options" in norm(lp.iter)}
+    if lvars and opt.getters:
+        import copy as _copy
+
+        class PG(ast.NodeTransformer):
+            def visit_Attribute(self, node):
+                node = self.generic_visit(node)
+                if isinstance(node.ctx, ast.Load) and isinstance(node.value, ast.Name) and node.value.id in lvars and node.attr in opt.getters:
+                    try:
+                        e = inline.as_expression(inline.normalize(repo, opt, opt.getters[node.attr]))
+                    except Exception:
+                        e = None
+                    if e is not None and not any(isinstance(x, (ast.Call, ast.Lambda)) for x in ast.walk(e)):
+                        e = _copy.deepcopy(e)
+                        for x in ast.walk(e):
+                            if isinstance(x, ast.Name) and x.id == "self":
+                                x.id = node.value.id
+                        return ast.copy_location(e, node)
+                return node
+
+            def visit_BinOp(self, node):
+                node = self.generic_visit(node)
+                if isinstance(node.op, ast.Pow) and isinstance(node.left, ast.Constant) and node.left.value == 2:
+                    return ast.copy_location(ast.BinOp(left=ast.Constant(value=1), op=ast.LShift(), right=node.right), node)
+                return node
+        fn = PG().visit(_copy.deepcopy(fn))
+        ast.fix_missing_locations(fn)
     return fn
 
 
